@@ -5,6 +5,7 @@ CONSTANTS
   Comps <- OneComp
   Intervals <- Iv4
   MaxActs = 4
+  Cons <- Cons1
   MaxSets = 1
 INVARIANT SameLength
 INVARIANT SameStep
